@@ -143,7 +143,9 @@ def scenarios(tier, seed):
             return out
         ''', {'a': 'real', 'r': 'real', 'ea': 'real'}, ['v.r >= 0', 'v.ea >= 0', 'v.a != 0'], preamble=PRE, what='uncertainty given as a relative value on a value of either sign'))
     # linear conversions scale the uncertainty like the value
-    pairs = [('km', 'm'), ('m', 'km'), ('g', 'kg'), ('h', 's'), ('km/h', 'm/s'), ('J', 'erg'), ('mm2', 'm2'), ('eV', 'J'), ('l', 'cm3'), ('N*m', 'J')]
+    pairs = [('km', 'm'), ('m', 'km'), ('g', 'kg'), ('h', 's'), ('km/h', 'm/s'), ('J', 'erg'), ('mm2', 'm2'), ('eV', 'J'), ('l', 'cm3'), ('N*m', 'J'),
+             # both units far below 1 in base units (nm, ps, eV, fg) and far above (Gpc, Mt): nothing in the rescaling may depend on the absolute size of the factors
+             ('nm', 'pm'), ('pm', 'nm'), ('ns', 'ps'), ('eV', 'keV'), ('fg', 'pg'), ('Gpc', 'Mpc'), ('ym', 'zm'), ('Ym', 'Zm')]
     if tier != 'quick':
         pairs += [('ft', 'm'), ('lb', 'kg'), ('Pa', 'bar'), ('kW*h', 'MJ'), ('deg', 'rad'), ('mi/h', 'km/s'), ('us', 'ms'), ('au', 'pc'), ('kg*m2/s2', 'J'), ('mol/l', 'mol/m3'),
                   ('%', 'ppth'), ('ly', 'km'), ('atm', 'kPa'), ('cal', 'J'), ('T', 'G'), ('Hz', 'kHz'), ('m-1', 'cm-1'), ('g/cm3', 'kg/m3'), ('C', 'mC'), ('day', 'yr')]
@@ -161,6 +163,14 @@ def scenarios(tier, seed):
                 return out
             ''', {'a': 'real', 'ea': 'real'}, ['v.ea >= 0', 'v.a > 0'], consts={'u': u, 'w': w, 'ratio': ratio}, preamble=PRE,
             what=f'linear conversion {u} -> {w} of an uncertain quantity'))
+    for u, w in (('nm', 'pm'), ('ps', 'ns'), ('eV', 'meV'), ('km', 'm')):
+        ratio = unitkit.ref_parse(w).value() / unitkit.ref_parse(u).value()
+        S.append(Scenario(f'sum-small-units/{u}+{w}', '''
+            def run(v, O):
+                r = Quantity(v.a, v.u, abse=v.ea) + Quantity(v.b, v.w, abse=v.eb)
+                return [('a+b: uncertainties add up (b converted into the unit of a)', O.eq(r.abse(), v.ea + v.eb * v.ratio, 1e-9)), ('a+b: value', O.eq(r.value(), v.a + v.b * v.ratio, 1e-9))]
+            ''', {'a': 'real', 'ea': 'real', 'b': 'real', 'eb': 'real'}, ['v.ea >= 0', 'v.eb >= 0', 'v.a > 0', 'v.b > 0'], consts={'u': u, 'w': w, 'ratio': ratio}, preamble=PRE,
+            what=f'sum of uncertain quantities in {u} and {w}'))
     # a bare number (or a ratio of lengths) converted to radians: linear although the dimensions differ
     for u, w, ratio in ((None, 'mrad', 1000.0), (None, 'rad', 1.0), ('cm/m', 'mrad', 10.0), ('mrad', 'rad', 0.001)):
         S.append(Scenario(f'convert-number/{u}->{w}', '''
